@@ -102,6 +102,14 @@ CLAIMED.update({
    technique="contract-based deductive verification plus a stop-responsiveness rule decided by symbolic path feasibility (SMT) over the contracts; z3/cvc5"),
 })
 
+CLAIMED.update({
+ "C20": dict(category="proof",
+   text="The ownership discipline that excludes data races on library state for every interleaving, as obligations over the typed AST of all eight disciplines (v2 limit, join, unite, priority, simple; v1 join, priority, Simple): every struct field is classified confined or shared; a confined field may be accessed only by functions reachable from the goroutine entry (and by the constructor before its go statement) and by no function reachable from an API method; a shared field is never written after the go statement (channel operations and breaker calls are not writes). Together with C08's heap-write ownership obligations for delivered slices, every memory location the library touches is either owned by exactly one goroutine or immutable while shared, and hand-overs happen over channels (happens-before).",
+   design_ref="DESIGN.md §3, §7 C20",
+   note=TB + "the Go memory model (channel hand-off, sync.WaitGroup, context, breaker) is trusted; races in user code that violates the documented protocol are out of scope; this is a frame/ownership check decided syntactically on go/types, no solver involved.",
+   technique="contract-based ownership/frame conditions (confined vs shared fields declared in the contract files) checked against the typed AST and call graph"),
+})
+
 NA = {
  "C19": "termination of goroutines over all schedules is a liveness property; the VC generator proves partial correctness of sequential code only (DESIGN.md §9)",
 }
